@@ -81,7 +81,7 @@ func runCase(t *testing.T) func(Case) pbt.Result {
 						kinds["concurrent-closers"]++
 					}
 					for _, o := range e.Ops {
-						if !o.Done() && (o.Kind == "sync") && e.Pubs[o.P].IsHeld() && e.Pubs[o.P].InFlight() > 0 && syncsOutstanding(e, o.P) == 1 {
+						if !o.Done() && (o.Kind == "sync") && e.Pubs[o.P].IsHeld() && e.Pubs[o.P].Parked() > 0 && syncsOutstanding(e, o.P) == 1 {
 							// certainly running: it is the only outstanding sync of its publisher and its block
 							// request is parked at the closed gate (a call that has not started yet when Close
 							// is called is legitimately refused)
